@@ -88,4 +88,21 @@ def expectedNested : List (String × String × String × List String) := [
   ("orefafs", "OrefaFile.Write", "f.nd#mu", ["f#mu:r"]),
   ("orefafs", "OrefaFile.WriteAt", "f.nd#mu", ["f#mu:r"])]
 
+/-- commits that rely on what the unlocked walk saw (C06). All but the first are RECORDED FINDINGS
+    (linearizability.memfs-no-recheck): two concurrent calls on one new name can both succeed, one entry overwriting the
+    other, or a node released twice. -/
+def expectedStale : List (String × String × String) := [
+  -- not a finding: opening a node that existed at the walk is decided by the walk (the open linearizes there);
+  -- the creating branch looks the entry up again (commitFreshCreate)
+  ("MemFS.OpenFile", "stale", "child"),
+  ("MemFS.Link", "stale", "oChild"),
+  ("MemFS.Link", "unchecked", "addChild"),
+  ("MemFS.RemoveAll", "stale", "child"),
+  ("MemFS.RemoveAll", "unchecked", "removeChild"),
+  ("MemFS.Rename", "stale", "oChild"),
+  ("MemFS.Rename", "stale", "nChild"),
+  ("MemFS.Rename", "unchecked", "addChild"),
+  ("MemFS.Rename", "unchecked", "removeChild"),
+  ("MemFS.Symlink", "unchecked", "createSymlink")]
+
 end Avfs.Conc
